@@ -3,6 +3,7 @@ import Mathlib.Tactic.Ring
 import Mathlib.Tactic.Linarith
 import Mathlib.Tactic.NormNum
 import Mathlib.Algebra.Order.Field.Rat
+import Mathlib.Data.List.Nodup
 
 namespace Qmc
 
@@ -326,5 +327,185 @@ theorem flipPairsOk_eq (m : List Rat) (mask count : Nat) (hc : count ≤ m.lengt
     · have : ¬ ∀ idx, idx < k + 1 → absR ((m[idx]?).getD 0 - (m[mask - idx]?).getD 0) < eps :=
         fun h => hall (fun idx hi => h idx (by omega))
       simp [hall, this]
+
+end Qmc
+
+namespace Qmc
+open Interaction
+
+/-! ### offset variants -/
+
+def minStep (acc : Option Rat) (item : Rat) : Option Rat :=
+  match acc with
+  | none => some item
+  | some a => if a < item then some a else some item
+
+theorem minFold_eq (l : List Rat) : minFold l = l.foldl minStep none := rfl
+
+theorem foldl_minStep_some (l : List Rat) (a : Rat) :
+    ∃ d, l.foldl minStep (some a) = some d ∧ d ∈ a :: l ∧ ∀ x ∈ a :: l, d ≤ x := by
+  induction l generalizing a with
+  | nil => exact ⟨a, rfl, by simp, by simp⟩
+  | cons b t ih =>
+    simp only [List.foldl_cons, minStep]
+    by_cases hab : a < b
+    · simp only [hab, if_true]
+      obtain ⟨d, hd, hmem, hmin⟩ := ih a
+      refine ⟨d, hd, ?_, ?_⟩
+      · rcases List.mem_cons.mp hmem with h | h
+        · simp [h]
+        · simp [h]
+      · intro x hx
+        rcases List.mem_cons.mp hx with h | h
+        · exact h ▸ hmin a (by simp)
+        · rcases List.mem_cons.mp h with h | h
+          · have := hmin a (by simp); rw [h]; linarith
+          · exact hmin x (by simp [h])
+    · simp only [hab, if_false]
+      obtain ⟨d, hd, hmem, hmin⟩ := ih b
+      refine ⟨d, hd, ?_, ?_⟩
+      · rcases List.mem_cons.mp hmem with h | h
+        · simp [h]
+        · simp [h]
+      · intro x hx
+        rcases List.mem_cons.mp hx with h | h
+        · have := hmin b (by simp); rw [h]; linarith [not_lt.mp hab]
+        · exact hmin x h
+
+/-- `minFold` of a non-empty list is its minimum. -/
+theorem minFold_spec (l : List Rat) (hl : l ≠ []) :
+    ∃ d, minFold l = some d ∧ d ∈ l ∧ ∀ x ∈ l, d ≤ x := by
+  cases l with
+  | nil => exact absurd rfl hl
+  | cons a t =>
+    rw [minFold_eq]
+    simp only [List.foldl_cons, minStep]
+    exact foldl_minStep_some t a
+
+theorem newDiagonalOffset_eq (m : List Rat) (vs : List Nat) :
+    Interaction.newDiagonalOffset m vs =
+      if vs ≠ [] ∧ m.length = 2 ^ vs.length then
+        .ok (newDiagonalResult (m.map (· - (minFold m).getD 0)) vs, (minFold m).getD 0)
+      else .err := by
+  unfold Interaction.newDiagonalOffset
+  simp only []
+  rw [newDiagonal_eq]
+  by_cases h : vs ≠ [] ∧ m.length = 2 ^ vs.length
+  · have hne : m ≠ [] := by
+      intro h0; rw [h0] at h; simp at h
+      have := Nat.two_pow_pos vs.length; omega
+    obtain ⟨d, hd, _, hmin⟩ := minFold_spec m hne
+    have hall : ∀ x ∈ m.map (· - (minFold m).getD 0), 0 ≤ x := by
+      intro x hx
+      obtain ⟨y, hy, rfl⟩ := List.mem_map.mp hx
+      rw [hd]; simp only [Option.getD_some]
+      linarith [hmin y hy]
+    have hc : (∀ x ∈ m.map (· - (minFold m).getD 0), 0 ≤ x) ∧ vs ≠ [] ∧
+        (m.map (· - (minFold m).getD 0)).length = 2 ^ vs.length := ⟨hall, h.1, by simpa using h.2⟩
+    rw [if_pos hc, if_pos h]; rfl
+  · have hc : ¬ ((∀ x ∈ m.map (· - (minFold m).getD 0), 0 ≤ x) ∧ vs ≠ [] ∧
+        (m.map (· - (minFold m).getD 0)).length = 2 ^ vs.length) := by
+      intro hc; exact h ⟨hc.2.1, by simpa using hc.2.2⟩
+    rw [if_neg hc, if_neg h]; rfl
+
+/-- effect of `subAt` when all indices are in range -/
+theorem subAt_spec (d : Rat) : ∀ (idxs : List Nat) (m : List Rat), (∀ i ∈ idxs, i < m.length) →
+    ∃ m', subAt m d idxs = .ok m' ∧ m'.length = m.length ∧
+      (∀ j, j ∉ idxs → m'[j]? = m[j]?) ∧
+      (idxs.Nodup → ∀ j ∈ idxs, m'[j]? = (m[j]?).map (· - d))
+  | [], m, _ => ⟨m, rfl, rfl, fun _ _ => rfl, fun _ j hj => by simp at hj⟩
+  | i :: t, m, h => by
+    have hi : i < m.length := h i (by simp)
+    have ht : ∀ k ∈ t, k < (m.set i (m[i] - d)).length := by
+      intro k hk; rw [List.length_set]; exact h k (by simp [hk])
+    obtain ⟨m', hm', hlen, hout, hin⟩ := subAt_spec d t (m.set i (m[i] - d)) ht
+    refine ⟨m', ?_, ?_, ?_, ?_⟩
+    · simp only [subAt, List.getElem?_eq_getElem hi]; exact hm'
+    · rw [hlen, List.length_set]
+    · intro j hj
+      have hji : j ≠ i := fun e => hj (by simp [e])
+      have hjt : j ∉ t := fun e => hj (by simp [e])
+      rw [hout j hjt, List.getElem?_set_ne (Ne.symm hji)]
+    · intro hnd j hj
+      have hnd' := List.nodup_cons.mp hnd
+      rcases List.mem_cons.mp hj with e | e
+      · subst e
+        rw [hout j hnd'.1, List.getElem?_set_self hi, List.getElem?_eq_getElem hi]; rfl
+      · have hji : j ≠ i := fun e' => hnd'.1 (e' ▸ e)
+        rw [hin hnd'.2 j e, List.getElem?_set_ne (Ne.symm hji)]
+
+/-- indices of the diagonal of a `2^n × 2^n` matrix, as `new_offset` enumerates them -/
+def diagIdxs (n : Nat) : List Nat := (List.range (2 ^ n)).map (fun i => (1 + 2 ^ n) * i)
+
+theorem diagIdxs_lt {n i : Nat} (h : i ∈ diagIdxs n) : i < 4 ^ n := by
+  obtain ⟨r, hr, rfl⟩ := List.mem_map.mp h
+  have hr' : r < 2 ^ n := by simpa using hr
+  have := diag_index_lt hr'
+  calc (1 + 2 ^ n) * r = r * 2 ^ n + r := by ring
+    _ < 4 ^ n := this
+
+theorem diagIdxs_nodup (n : Nat) : (diagIdxs n).Nodup := by
+  unfold diagIdxs
+  apply List.Nodup.map _ List.nodup_range
+  intro a b hab
+  have : 0 < 1 + 2 ^ n := Nat.add_pos_left Nat.one_pos _
+  exact Nat.eq_of_mul_eq_mul_left this hab
+
+/-- `new_offset` never panics; when the size fits a non-empty variable list it behaves like `new`
+on the matrix with the minimal diagonal entry `d` subtracted from the diagonal, and reports `d`. -/
+theorem newOffset_spec (m : List Rat) (vs : List Nat) :
+    (¬ (m.length = 4 ^ vs.length) → Interaction.newOffset m vs = .err ∨
+        (∃ n, m.length = 4 ^ n ∧ n ≠ vs.length ∧ Interaction.newOffset m vs = .err)) ∧
+    (m.length = 4 ^ vs.length →
+      ∃ d m', (d ∈ (diagIdxs vs.length).map (fun i => (m[i]?).getD 0)) ∧
+        (∀ i ∈ diagIdxs vs.length, d ≤ (m[i]?).getD 0) ∧
+        m'.length = m.length ∧
+        (∀ j, j ∉ diagIdxs vs.length → m'[j]? = m[j]?) ∧
+        (∀ j ∈ diagIdxs vs.length, m'[j]? = (m[j]?).map (· - d)) ∧
+        Interaction.newOffset m vs = (Interaction.new m' vs).map (fun i => (i, d))) := by
+  have key : ∀ n, m.length = 4 ^ n →
+      ∃ d m', (d ∈ (diagIdxs n).map (fun i => (m[i]?).getD 0)) ∧
+        (∀ i ∈ diagIdxs n, d ≤ (m[i]?).getD 0) ∧
+        m'.length = m.length ∧
+        (∀ j, j ∉ diagIdxs n → m'[j]? = m[j]?) ∧
+        (∀ j ∈ diagIdxs n, m'[j]? = (m[j]?).map (· - d)) ∧
+        Interaction.newOffset m vs = (Interaction.new m' vs).map (fun i => (i, d)) := by
+    intro n hlen
+    have hsz := (getMatVarSize_iff _ _).mpr hlen
+    have hmap : mapP (diagIdxs n) (getP m) = .ok ((diagIdxs n).map (fun i => (m[i]?).getD 0)) := by
+      apply mapP_ok
+      intro a ha
+      exact getP_of_lt (by rw [hlen]; exact diagIdxs_lt ha)
+    have hne : (diagIdxs n).map (fun i => (m[i]?).getD 0) ≠ [] := by
+      have : 0 < 2 ^ n := Nat.two_pow_pos n
+      simp [diagIdxs]
+    obtain ⟨d, hd, hmem, hmin⟩ := minFold_spec _ hne
+    obtain ⟨m', hm', hl', hout, hin⟩ := subAt_spec d (diagIdxs n) m
+      (fun i hi => by rw [hlen]; exact diagIdxs_lt hi)
+    refine ⟨d, m', hmem, ?_, hl', hout, hin (diagIdxs_nodup n), ?_⟩
+    · intro i hi
+      exact hmin _ (List.mem_map.mpr ⟨i, hi, rfl⟩)
+    · unfold Interaction.newOffset
+      simp only [hsz]
+      have e : (List.range (2 ^ n)).map (fun i => (1 + 2 ^ n) * i) = diagIdxs n := rfl
+      rw [e, hmap]
+      simp only [hd, Option.getD_some, hm']
+  constructor
+  · intro hlen
+    cases hsz : getMatVarSize m.length with
+    | none => left; unfold Interaction.newOffset; simp [hsz]
+    | some n =>
+      right
+      have hl := (getMatVarSize_iff _ _).mp hsz
+      have hn : n ≠ vs.length := fun e => hlen (e ▸ hl)
+      refine ⟨n, hl, hn, ?_⟩
+      obtain ⟨d, m', _, _, hl', _, _, heq⟩ := key n hl
+      rw [heq, new_eq]
+      have : ¬ ((∀ x ∈ m', 0 ≤ x) ∧ vs ≠ [] ∧ m'.length = 4 ^ vs.length) := by
+        intro hc; rw [hl', hl] at hc
+        exact hn (Nat.pow_right_injective (by omega : 2 ≤ 4) hc.2.2)
+      rw [if_neg this]; rfl
+  · intro hlen
+    exact key vs.length hlen
 
 end Qmc
